@@ -427,6 +427,7 @@ fn many_versions_world(n: usize, cached_one: usize) -> crate::registry::RegWorld
     has_locker: false,
     lock_manifests: vec![],
     lock_remote: vec![],
+    seeds: vec![],
   }
 }
 
